@@ -267,6 +267,17 @@ def scenario(cfg, symbolic: bool, dims: Optional[dict] = None) -> List[str]:
         if r4[0] != 'ret':
             seq_bad.append(f'strict switched off again: new attribute other refused ({r4[:2]})')
         r = ('ret', None)
+    elif op == 'replace_unknown':
+        # bulk assignment to a name that is not a variable: refused (KeyError), nothing created, nothing changed
+        r = _run(lambda: c.replace_values(Qq=operand))
+        must_raise = 'KeyError'
+    elif op == 'replace_attr_name':
+        # ... and to the name of an existing plain attribute (`span`): refused as well
+        r = _run(lambda: c.replace_values(span=operand))
+        must_raise = 'KeyError'
+    elif op == 'add_attribute_dup':
+        r = _run(lambda: c.add_attribute('X', 5))
+        must_raise = 'DuplicateNameError'
     elif op == 'add_attribute':
         r = _run(lambda: c.add_attribute('note', 'text'))
     elif op == 'toggle_strict':
@@ -282,6 +293,18 @@ def scenario(cfg, symbolic: bool, dims: Optional[dict] = None) -> List[str]:
             bad.append(f'{op}: raised {r[1]}, expected {must_raise}')
     if op == 'attr_new' and cfg['strict'] and r[0] == 'exc' and "Did you mean: 'X'" not in r[2]:
         bad.append(f'strict near-miss name is not reported with the closest variable: {r[2]!r}')
+    if op in ('replace_unknown', 'replace_attr_name', 'add_attribute_dup'):
+        if 'Qq' in c.__dict__ or 'Qq' in c.__dict__.get('_attributes', []):
+            bad.append('replace_values created an attribute for an unknown name')
+        if not isinstance(c.__dict__.get('span'), (list, range, np.ndarray)) or len(c.__dict__['span']) != L:
+            bad.append('replace_values overwrote the span')
+        if 'X' in c.__dict__:
+            bad.append('add_attribute stored a plain attribute under the name of variable X (it shadows the series)')
+    # a stored array is the container's own: never the caller's array object / buffer
+    if r[0] == 'ret' and op in ('attr_set', 'item_set', 'replace_values') and od is not None and od[0] == 'arr':
+        now_x = c.__dict__['_X']
+        if now_x is operand or (not symbolic and isinstance(operand, np.ndarray) and operand.ndim >= 1 and operand.size and np.shares_memory(now_x, operand)):
+            bad.append(f'after {op} the series X IS the array that was assigned (shared storage with the caller)')
     # invariant / frame
     if r[0] == 'exc' and single:
         if list(c.index) != idx0 or list(getattr(c, 'names', [])) != names0:
@@ -445,6 +468,8 @@ def configs(tier: str):
                             out.append(cfg9(cls=cls, L=L, kinds=kinds, strict=strict, op='add_variable_dup', operand=od))
                             out.append(cfg9(cls=cls, L=L, kinds=kinds, strict=strict, op='item_set_unknown', operand=od))
                     out.append(cfg9(cls=cls, L=L, kinds=kinds, strict=strict, op='add_attribute', operand=None))
+                    for op_ in ('replace_unknown', 'replace_attr_name', 'add_attribute_dup'):
+                        out.append(cfg9(cls=cls, L=L, kinds=kinds, strict=strict, op=op_, operand=('scalar', 'float')))
                     out.append(cfg9(cls=cls, L=L, kinds=kinds, strict=strict, op='attr_lifecycle', operand=('scalar', 'float')))
                     out.append(cfg9(cls=cls, L=L, kinds=kinds, strict=strict, op='toggle_strict', operand=None))
     return out
